@@ -52,6 +52,7 @@ inductive Mut where
 structure Input where
   p       : Packet
   po      : Nat       -- the deprecated field Header.PayloadOffset (a header field like any other)
+  raw     : Option Bytes := none   -- the deprecated field Packet.Raw, set by hand (none = nil)
   nils    : Nils
   mutn    : Mut
   onClone : Bool      -- true: the clone is mutated and the original observed; false: the reverse
@@ -62,6 +63,7 @@ structure Obs where
   clone     : Side        -- the clone right after Packet.Clone
   cloneNils : Nils
   clonePO   : Nat         -- clone.PayloadOffset
+  cloneRaw  : Option Bytes := none   -- clone.Raw (none = nil)
   ovPayload : Bool        -- clone.Payload shares memory with a byte slice of the original
   ovCsrc    : Bool        -- clone.CSRC / original.CSRC backing arrays overlap
   ovExtArr  : Bool        -- the two `[]Extension` backing arrays overlap
@@ -82,16 +84,18 @@ structure Obs where
 /-- the model's observation: cloning is the identity on values, nothing is shared, a mutation of
     one value does not reach the other -/
 def modelObs (x : Input) : Obs :=
-  let c := pktClone x.p
+  let cd := pktCloneD { pkt := x.p, dep := { raw := x.raw, payloadOffset := x.po } }
+  let c := cd.pkt
   { marshal0 := pktMarshal x.p
     clone := Side.of c
     cloneNils := x.nils
-    clonePO := x.po
+    clonePO := cd.dep.payloadOffset
+    cloneRaw := cd.dep.raw
     ovPayload := false, ovCsrc := false, ovExtArr := false, ovExtPl := false
     hclone := canonH (hdrClone x.p.header)
     hRaw := (hdrClone x.p.header).extProfile
     hNils := { x.nils with payload := false }
-    hPO := x.po
+    hPO := (hdrCloneD x.p.header x.po).2
     hovCsrc := false, hovExtArr := false, hovExtPl := false
     other := Side.of (if x.onClone then x.p else c)
     otherMarshal := pktMarshal (if x.onClone then x.p else c)
